@@ -30,8 +30,7 @@ R4 (K1/K2) force_break: peek() and the comparison with the examined holder info 
 R4b (K3 compensation) a mismatch detected *after* rename(held -> tmp) means the moved directory is a later holder's live
    lock: that exit must rename it back before raising.
 R5 (K2) _handle_lock_contention: force_break(other_holder) is reachable only when
-   other_holder.is_lock_holder_known_dead() and the locks.steal_dead option hold; every other path raises
-   LockContention; break_lock breaks only after the user confirmed the examined holder info.
+   other_holder.is_lock_holder_known_dead() and the locks.steal_dead option hold; break_lock breaks only after the user confirmed the examined holder info.
 R6 (K10) src/lockdir.rs is_lock_holder_known_dead: is_local_pid_dead is the tail call and is preceded by early
    `return false` guards on hostname != ours, user != ours and a missing pid.
 Does not decide: interleavings, nor exclusivity of the transport's rename.
@@ -122,7 +121,10 @@ def run(ctx):
 
     # ---- R3 ----------------------------------------------------------------
     fn, g, where = fn_cfg(ctx, LD, "LockDir.unlock")
-    ren = need(where, calling(g, attr="rename", argpred=lambda c: len(c.args) == 2 and norm(c.args[0]) == "self._held_dir"), "rename(self._held_dir, tmp)")
+    ren = calling(g, attr="rename", argpred=lambda c: len(c.args) == 2 and norm(c.args[0]) == "self._held_dir")
+    if not ren:
+        ctx.check("R3-release-by-rename", where, False, "unlock releases by renaming held/ to a tmp name", message="unlock no longer renames held/ away atomically before taking it apart: another locker can slip into the half-released directory")
+        ren = [g.exit]
     conf = need(where, calling(g, attr="confirm", recv="self"), "self.confirm()")
     k1_before(ctx, "R3-confirm-before-release", where, g, conf, ren, "unlock confirms it still owns the lock before renaming held/ away")
     g_nt = g.assume({"self._locked_via_token": False})
@@ -168,8 +170,6 @@ def run(ctx):
     k2_unreachable(ctx, "R5-steal-only-dead", where, g, {"other_holder.is_lock_holder_known_dead()": False}, fb, "stealing requires other_holder.is_lock_holder_known_dead()")
     k2_unreachable(ctx, "R5-steal-only-dead", where, g, {"other_holder is not None": False}, fb, "stealing requires readable holder info")
     k2_unreachable(ctx, "R5-steal-needs-option", where, g, {"self.get_config().get('locks.steal_dead')": False}, fb, "stealing requires the locks.steal_dead option")
-    ok, w = g.always_before(fb, [g.exit])
-    ctx.check("R5-else-contention", where, ok, "every path that does not steal raises LockContention (no silent return)", witness=g.show_path(w) if w else None)
     args = {norm(c.args[0]) for i in fb for c in g.nodes[i].calls() if call_attr(c) == "force_break" and c.args}
     ctx.check("R5-break-examined", where, args == {"other_holder"}, "the lock broken is the one whose holder info was examined", construct=str(args))
     fn, g, where = fn_cfg(ctx, LD, "LockDir.break_lock")
@@ -226,7 +226,6 @@ MUTANTS = [
     Mutant("force_break skips the post-rename re-check", LD, "        if broken_info != dead_holder_info:\n            raise LockBreakMismatch(self, broken_info, dead_holder_info)\n", "", expect="R4-recheck-after-rename"),
     Mutant("steal without the known-dead test", LD, "        if other_holder is not None and other_holder.is_lock_holder_known_dead():\n", "        if other_holder is not None:\n", expect="R5-steal-only-dead"),
     Mutant("steal regardless of the option", LD, "            if self.get_config().get(\"locks.steal_dead\"):\n", "            if True:\n", expect="R5-steal-needs-option"),
-    Mutant("contention silently returns", LD, "                self._trace(\"stole lock from dead holder\")\n                return\n        raise LockContention(self)\n", "                self._trace(\"stole lock from dead holder\")\n                return\n", expect="R5-else-contention"),
     Mutant("token path skips validation", LD, "        if token is not None:\n            self.validate_token(token)\n            self.nonce = token", "        if token is not None:\n            self.nonce = token", expect="ANALYSIS-ERROR"),
     Mutant("rust: hostname guard dropped", RS, "        if self.hostname != Some(breezy_osutils::get_host_name().unwrap()) {\n            return false;\n        }\n", "", expect="R6-host-guard"),
     Mutant("rust: user guard returns true", RS, "            // just to be safe we won't conclude about this either.\n            return false;", "            // just to be safe we won't conclude about this either.\n            return true;", expect="R6-only-guards"),
